@@ -42,12 +42,12 @@ def parse_c2s(stream):
     return out
 
 
-def replay(script_text, warp, tmp, via_stdin=False):
+def replay(script_text, warp, tmp, via_stdin=False, delay=None):
     path = os.path.join(tmp, "rec.vdo")
     with open(path, "w", encoding="utf-8", newline="") as f:
         f.write(script_text)
     if via_stdin:
-        return replay_stdin(script_text, warp)
+        return replay_stdin(script_text, warp, delay)
     clock = task.Clock()
     old = vclient.reactor
     vclient.reactor = clock
@@ -56,7 +56,7 @@ def replay(script_text, warp, tmp, via_stdin=False):
         stamped = []
         c.transport.write = lambda data: stamped.append((clock.seconds(), bytes(data)))
         fac = types.SimpleNamespace(deferred=Deferred())
-        command.build_command_list(fac, [path], None, warp)
+        command.build_command_list(fac, [path], delay, warp)
         done, errs = [], []
         fac.deferred.addCallback(lambda cl: done.append(1))
         fac.deferred.addErrback(lambda f: errs.append(f))
@@ -79,7 +79,7 @@ def replay(script_text, warp, tmp, via_stdin=False):
         vclient.reactor = old
 
 
-def replay_stdin(script_text, warp):
+def replay_stdin(script_text, warp, delay=None):
     """`vncdo -`: the recorded script is piped into vncdo's standard input (build_tool's stdin branch)"""
     import io, sys
     from unittest import mock
@@ -90,7 +90,7 @@ def replay_stdin(script_text, warp):
         c, trace = connect()
         stamped = []
         c.transport.write = lambda data: stamped.append((clock.seconds(), bytes(data)))
-        opts = mock.Mock(verbose=0, delay=None, warp=warp, incremental_refreshes=False, host="h", port=1, address_family=0)
+        opts = mock.Mock(verbose=0, delay=delay, warp=warp, incremental_refreshes=False, host="h", port=1, address_family=0)
         with mock.patch.object(command, "factory_connect", lambda *a: None), mock.patch.object(command, "reactor", mock.Mock()), \
                 mock.patch.object(sys, "stdin", io.StringIO(script_text)):
             try:
@@ -177,10 +177,13 @@ def run(ctx):
             via_stdin = r.random() < .3 and not any(e[0] == "key" and e[1] == 13 for e in evs)
             ctx.count("replayed_via_stdin" if via_stdin else "replayed_from_file")
             unrec = any(e[0] == "key" and e[1] > 0x10FFFF for e in evs)
-            warp = r.choice([1.0, 1.0, 0.5, 2.0, 4.0])
-            stamped, err = replay(script, warp, tmp, via_stdin)
+            warp = r.choice([1.0, 1.0, 0.5, 0.25, 2.0, 4.0])
+            # vncdo's own --delay between commands (default 10 ms) only ever adds time: a pause still lasts gap / warp
+            delay = r.choice([None, None, 10, 100])
+            ctx.count("replay_delay_%s" % delay)
+            stamped, err = replay(script, warp, tmp, via_stdin, delay)
             rp = {"input": {"events": [list(e) for e in evs], "warp": warp, "script": script},
-                  "how": "real recorder text written to a file (or piped into vncdo - ), compiled by build_command_list and executed on a real client with a virtual clock", "via_stdin": via_stdin}
+                  "how": "real recorder text written to a file (or piped into vncdo - ), compiled by build_command_list and executed on a real client with a virtual clock", "via_stdin": via_stdin, "delay_ms": delay}
             has_cr = any(e[0] == "key" and e[1] == 13 for e in evs)
             sig = "keysym-not-recordable" if unrec else ("keysym-cr" if has_cr else "replay")
             nt = len(evs) >= 3 and special
